@@ -26,11 +26,14 @@ func vC06ChooseShape(n int) *vC06Shape {
 				ps = append(ps, i)
 			}
 		}
-		// antichain: no parent is an ancestor of another parent
-		for _, a := range ps {
-			for _, b := range ps {
-				if a != b && s.anc[b][a] {
-					rt.Assume(false)
+		// antichain: no parent is an ancestor of another parent (what an honest client writes: the heads it saw);
+		// with redundant=1 a parent list may also name an ancestor of another parent (a peer is free to send that)
+		if rt.Param("redundant", 0) == 0 {
+			for _, a := range ps {
+				for _, b := range ps {
+					if a != b && s.anc[b][a] {
+						rt.Assume(false)
+					}
 				}
 			}
 		}
